@@ -52,6 +52,16 @@ func multiMembers() []multiMember {
 	out = append(out, multiMember{name: "reference across two packages plus an unrelated file", files: []*fam.FileSpec{mkA(), mkB(), mkU()}, cfg: two,
 		orders: [][]string{{"a.json", "b.json", "u.json"}, {"u.json", "b.json", "a.json"}},
 		outOf:  map[string]string{"a.json": "pa/a.go", "b.json": "pb/b.go", "u.json": "pa/u.go"}, pkgOf: map[string]string{"pa/a.go": "example.com/gen/pa", "pb/b.go": "example.com/gen/pb", "pa/u.go": "example.com/gen/pa"}})
+	// an allOf branch that refers into the other package (the merged struct inlines the fields: nothing of the other package is named)
+	{
+		br := objSpec(&fam.Prop{Label: "n", Spec: &fam.Spec{Kind: "integer"}, Required: true})
+		br.Ref, br.RefFile = "$defs", "b.json"
+		comp := &fam.Spec{Kind: "object", AllOf: []*fam.Spec{br, objSpec(&fam.Prop{Label: "x", Spec: &fam.Spec{Kind: "string"}})}}
+		fa := &fam.FileSpec{Name: "a.json", ID: "https://example.com/a", Root: objSpec(&fam.Prop{Label: "c", Spec: comp, Required: true})}
+		out = append(out, multiMember{name: "an allOf branch referring into another package", files: []*fam.FileSpec{fa, mkB()}, cfg: two,
+			orders: [][]string{{"a.json", "b.json"}},
+			outOf:  map[string]string{"a.json": "pa/a.go", "b.json": "pb/b.go"}, pkgOf: map[string]string{"pa/a.go": "example.com/gen/pa", "pb/b.go": "example.com/gen/pb"}})
+	}
 	// one package, two output files
 	same := base
 	same.Mappings = []gen.Mapping{{ID: "https://example.com/a", Package: "example.com/gen/model", Output: "model/a.go"}, {ID: "https://example.com/b", Package: "example.com/gen/model", Output: "model/b.go"}}
